@@ -227,6 +227,15 @@ class Optic:
         surface_post = self.surface_group.surfaces[surface_number+1]
         surface_post.material_pre = new_material
 
+        # a mirror keeps the medium in front of it: carry the new medium
+        # through any reflecting surfaces that follow
+        surfaces = self.surface_group.surfaces
+        k = surface_number + 1
+        while surfaces[k].is_reflective and k + 1 < len(surfaces):
+            surfaces[k].material_post = new_material
+            surfaces[k+1].material_pre = new_material
+            k += 1
+
     def set_asphere_coeff(self, value, surface_number, aspher_coeff_idx):
         """
         Set the asphere coefficient on a surface
